@@ -333,10 +333,17 @@ func Rename(from, to string) error {
 func Lstat(name string) (FileInfo, error) { return Stat(name) }
 
 func Getwd() (string, error) {
-	if disk() != nil {
-		return "/cwd", nil
+	if d := disk(); d != nil {
+		return d.Getwd(), nil
 	}
 	return ros.Getwd()
+}
+
+func Chdir(dir string) error {
+	if d := disk(); d != nil {
+		return d.Chdir(dir)
+	}
+	return ros.Chdir(dir)
 }
 
 func TempDir() string {
